@@ -375,7 +375,15 @@ func buildDescriptors[T any](spec []keySpec, get func(T) rec) fpgo.SortDescripto
 	var batch []fpgo.SortDescriptor[T]
 	flush := func() {
 		if len(batch) > 0 {
-			b = b.ThenWith(batch...)
+			// the list handed over is the caller's (spread call, spare capacity): it is re-used for something
+			// else right afterwards, which must not reach the builder
+			mine := make([]fpgo.SortDescriptor[T], len(batch), len(batch)+2)
+			copy(mine, batch)
+			b = b.ThenWith(mine...)
+			for i := range mine {
+				mine[i] = fpgo.NewFieldSortDescriptor[T](fieldNames[(i+1)%3], i%2 == 0)
+			}
+			_ = append(mine, fpgo.NewFieldSortDescriptor[T](fieldNames[0], true))
 			batch = nil
 		}
 	}
